@@ -415,10 +415,13 @@ impl Regex {
     {
         let flags = flags.into();
         let mut ire = parse::try_parse(pattern, flags)?;
+        sim_step!(COMPILE_PARSED, 0);
         if !flags.no_opt {
             optimizer::optimize(&mut ire);
         }
+        sim_step!(COMPILE_OPTIMIZED, 0);
         let cr = emit::emit(&ire);
+        sim_step!(COMPILE_EMITTED, 0);
         Ok(Regex { cr })
     }
 
